@@ -219,6 +219,7 @@ def _run_case(case):
         RuntimeEngine._rt_engine = None
         vrec.reset()
         vrec.CONSTRUCTED.clear()
+        vrec.WANT_FRAMES[0] = bool(case.get("frames"))
         for a in case["analyses"]:
             for h, vals in (a.get("script") or {}).items():
                 vrec.SCRIPT[(a.get("tag", a["cls"]), h)] = [_mkval(v) for v in vals]
@@ -244,6 +245,9 @@ def _run_case(case):
             ex.pop("_obj", None)
         dels = [list(d) for d in vrec.LOG]
         res["inst"] = {"stdout": so, "log": lg, "globals": gl, "exc": ex, "deliveries": dels, "constructed": list(vrec.CONSTRUCTED), "ended_by_program": ended_by_program, "stderr": err.getvalue()[-500:]}
+        if case.get("frames"):
+            res["inst"]["frames"] = list(vrec.FRAMES)
+        vrec.WANT_FRAMES[0] = False
         # ---- id maps
         idmaps = {}
         for rel in case["files"]:
